@@ -238,20 +238,22 @@ impl Drv for SyncDrv {
         self.0.verif_buffer()
     }
     fn drive_until(&self, cond: &(dyn Fn() -> bool + Sync), timeout: Duration) -> bool {
-        let t0 = std::time::Instant::now();
-        let mut spins = 0u32;
-        while !cond() {
-            spins += 1;
-            if spins < 200 {
-                std::thread::yield_now();
-            } else {
-                std::thread::sleep(Duration::from_micros(50));
+        crate::supervise::polling(|| {
+            let t0 = std::time::Instant::now();
+            let mut spins = 0u32;
+            while !cond() {
+                spins += 1;
+                if spins < 200 {
+                    std::thread::yield_now();
+                } else {
+                    std::thread::sleep(Duration::from_micros(50));
+                }
+                if spins % 64 == 0 && t0.elapsed() > timeout {
+                    return false;
+                }
             }
-            if spins % 64 == 0 && t0.elapsed() > timeout {
-                return false;
-            }
-        }
-        true
+            true
+        })
     }
     fn clone_handle(&self) -> Arc<dyn Drv> {
         Arc::new(SyncDrv(self.0.clone()))
@@ -414,7 +416,7 @@ impl Drv for AsyncDrv {
     }
     fn drive_until(&self, cond: &(dyn Fn() -> bool + Sync), timeout: Duration) -> bool {
         let t0 = std::time::Instant::now();
-        self.bo(async {
+        crate::supervise::polling(|| self.bo(async {
             let mut spins = 0u32;
             while !cond() {
                 spins += 1;
@@ -427,7 +429,7 @@ impl Drv for AsyncDrv {
                 }
             }
             true
-        })
+        }))
     }
     fn clone_handle(&self) -> Arc<dyn Drv> {
         Arc::new(AsyncDrv(self.0.clone(), self.1))
